@@ -5,3 +5,4 @@ import Proofs.Range
 import Proofs.FlatInsertCore
 import Proofs.ShallowKeys
 import Proofs.GapBack
+import Proofs.GapBackAligned
